@@ -906,7 +906,7 @@ func genObject(r *RNG, root *Node, opt ObjOpts) *AV {
 				cur = nx
 			}
 			if ok && cur.Get(p[cut]) == nil {
-				cur.Set(p[cut], pick(r, []*AV{avInt(5), avStr("s"), {K: AVOther, Tag: r.Intn(len(otherNames))}, {K: AVBool, B: true}, avFloat(1.5)}))
+				cur.Set(p[cut], pick(r, []*AV{avInt(5), avStr("s"), {K: AVOther, Tag: r.Intn(len(otherNames))}, {K: AVBool, B: true}, avFloat(1.5), {K: AVOther, Tag: 16}, {K: AVOther, Tag: 9}}))
 			}
 			continue
 		}
